@@ -81,11 +81,11 @@ def PitfallFormula(v, d, ny, nz, k, formula_class=CNF):
     if nz < 2:
         raise ValueError("argument 'nz' must be at least 2.")
 
-    if (d > v) or (v * d % 2 == 1):
+    if (d >= v) or (v * d % 2 == 1):
         raise ValueError(
             "No regular {}-degree graph with {}-vertices exists.\n".format(
                 d, v) +
-            "It requires  degree <= #vertices and degree*#vertices even")
+            "It requires  degree < #vertices and degree*#vertices even")
     phi = formula_class(
         description=
         'Pitfall Formula with parameters (v={},d={},ny={},nz={},k={})'.format(
